@@ -686,7 +686,10 @@ func (x *CommonLex) Next() rune {
 	}
 	c, size := utf8.DecodeRune(x.line)
 	x.line = x.line[size:]
-	if c == utf8.RuneError && size == 1 {
+	if (c == utf8.RuneError && size == 1) || c == xutils.EOF {
+		// A NUL character in the input must not be taken for the end of
+		// the input (xutils.EOF is 0): it is as invalid as a broken
+		// UTF-8 sequence.
 		x.invalidUTF8 = true
 		return xutils.ERR
 	}
